@@ -33,6 +33,8 @@ def run(ctx):
                        "%s/%s %s (nc=%d np=%d nb=%d t=%d oc=%d ot=%d seed=%d): %s" % (
                            m["model"], m["backend"], m["kind"], m["config"]["nc"], m["config"]["np"], m["config"]["nb"],
                            m["config"]["t"], m["config"]["oc"], m["config"]["ot"], m["seed"], m["detail"]), m)
-    ctx.assumptions += ["parameters, states and inputs are drawn (seeded) from declared or curated valid ranges (harness/cmd/vh/models.go)",
+    runwrap.proxy_traces(ctx, 6 if ctx.quick else 60)
+    ctx.assumptions += ["proxy traces: accesses made through a slice handed out by Unroll() of a contiguous view are not observable (they stay inside that view's recorded footprint)",
+                        "parameters, states and inputs are drawn (seeded) from declared or curated valid ranges (harness/cmd/vh/models.go)",
                         "cells of one Run share structural parameters that fix the state-vector length (Lag length, GR4J unit-hydrograph lengths)"]
     return ctx.finish("model_checking")
